@@ -7,8 +7,11 @@ cd /repo || exit 2
 if ! git diff --quiet; then echo "/repo has uncommitted changes; refusing"; exit 2; fi
 git apply "$patch" || { echo "patch does not apply"; exit 2; }
 cd /verif
+# the evidence file describes the unchanged tree: keep it
+[ -f evidence/$prop.json ] && cp evidence/$prop.json .work/evidence.$prop.keep
 ./check "$prop" --tier "$tier" > /verif/.work/seedtest.out 2>&1
 rc=$?
+[ -f .work/evidence.$prop.keep ] && mv .work/evidence.$prop.keep evidence/$prop.json
 git -C /repo checkout -- .
 git -C /repo clean -fdq -- . >/dev/null 2>&1
 # never leave generated tables or binaries built from the patched tree behind
